@@ -65,6 +65,27 @@ def render(t, n):
         return S + "var x=0;" + "x=x+1;" * n + " switch (5) { default: x=x+7; case 0: x=x+0 } x"
     if t == "while_continue_labelled":
         return S + "var x=0,i=0; outer: while (i<2) { i=i+1; var j=0; while (j<1) { j=j+1; " + "x=x+1;" * n + " continue outer } } x"
+    if t in ("chain_addsub", "chain_addsub_fn"):
+        e = "1000" + "".join((" + %d" if i % 2 == 1 else " - %d") % i for i in range(1, n + 1))
+        return S + (e if t == "chain_addsub" else "function f(){ return %s } f()" % e)
+    if t == "chain_mulsub":
+        return S + "function f(a){ return a" + " * 1" * n + " - 42 } f(84)"
+    if t == "chain_cmp":
+        return S + "('' + " + " + ".join(str(i % 10) for i in range(n + 1)) + ") < '~'"
+    if t.startswith("hoist_"):
+        fill = "".join("x = x + 1;" for _ in range(n))
+        if t == "hoist_call":
+            return S + "var x = 0; x = f();" + fill + " function f(){ return 100000 } x"
+        if t == "hoist_call_names":
+            return S + "var x = f();" + "".join("var u%d = %d; x = x + 1;" % (i, i % 7) for i in range(n)) + " function f(){ return 100000 } x"
+        if t == "hoist_in_fn":
+            return S + "function outer(){ var x = 0; x = f();" + fill + " function f(){ return 100000 } return x } outer()"
+        if t == "hoist_redecl":
+            return S + "var x = 0; x = g(); function g(){ return 100000 } " + fill + " function g(){ return 200000 } x"
+        if t == "hoist_typeof":
+            return S + "var x = (typeof h === 'function') ? h() : -1;" + fill + " function h(){ return 500000 } x"
+        if t == "hoist_var":
+            return S + "var x = 0; var r = (v === undefined) ? 'hoisted' : 'bound:' + v;" + fill + " var v = 3; r"
     if t.startswith("swd_"):
         kind = t[4:]
         d = {"true": "true", "false": "false", "str1": "'1'", "one": "1", "negzero": "-0", "nan": "NaN", "null": "null", "undef": "undefined",
